@@ -127,7 +127,7 @@ func runMutant(self, id, repo, verif, name string) mutantResult {
 	// private verif dir: specs + known findings, evidence goes to the scratch dir
 	tv := filepath.Join(tmp, "verif")
 	os.MkdirAll(filepath.Join(tv, "spec"), 0o755)
-	for _, f := range []string{"spec/ledger.json", "spec/layouts.json", "spec/builders.json", "spec/constants.json", "spec/rejects.json", "known_findings.json"} {
+	for _, f := range []string{"spec/ledger.json", "spec/layouts.json", "spec/builders.json", "spec/constants.json", "spec/rejects.json", "spec/functions.json", "known_findings.json"} {
 		if b, err := os.ReadFile(filepath.Join(verif, f)); err == nil {
 			os.WriteFile(filepath.Join(tv, f), b, 0o644)
 		}
@@ -264,7 +264,7 @@ func runRefactor(self, id, repo, verif, name string) string {
 	}
 	tv := filepath.Join(tmp, "verif")
 	os.MkdirAll(filepath.Join(tv, "spec"), 0o755)
-	for _, f := range []string{"spec/ledger.json", "spec/layouts.json", "spec/builders.json", "spec/constants.json", "spec/rejects.json", "known_findings.json"} {
+	for _, f := range []string{"spec/ledger.json", "spec/layouts.json", "spec/builders.json", "spec/constants.json", "spec/rejects.json", "spec/functions.json", "known_findings.json"} {
 		if b, err := os.ReadFile(filepath.Join(verif, f)); err == nil {
 			os.WriteFile(filepath.Join(tv, f), b, 0o644)
 		}
